@@ -290,3 +290,134 @@ fn c19_typename_composite_from_v3() {
     core::mem::forget(v);
     core::mem::forget(v2);
 }
+
+// ---- commit slot: each version reads what the other writes ----------------------------------------
+
+fn any_root() -> Option<(u64, u128, u64)> {
+    if kani::any() {
+        // a valid page number: order <= 20, index below 2^(20-order), reserved bits clear
+        let order: u64 = kani::any();
+        kani::assume(order <= 20);
+        let index: u64 = kani::any();
+        kani::assume(index <= (0xFFFFFu64 >> order));
+        let region: u64 = kani::any();
+        kani::assume(region <= 0xFFFFF);
+        Some((index | (region << 20) | (order << 59), kani::any(), kani::any()))
+    } else {
+        None
+    }
+}
+
+// @harness props=C19 tier=thorough timeout=7200 mem=32
+// @desc (attempted: did not close in 1800 s in the quick tier - four symbolic xxh3 evaluations) commit slot written by this version and parsed by redb 3.0.0's TransactionHeader::from_bytes yields the same transaction id, data root and system root (page number, checksum, length) - and conversely; field offsets of the 128-byte slot are identical in both versions (the first 112 bytes written by both writers are byte-identical)
+// @functions cur and v3: TransactionHeader::{new,to_bytes,from_bytes}, BtreeHeader::{to_le_bytes,from_le_bytes}, PageNumber::{to_le_bytes,from_le_bytes}, xxh3_checksum (real, both copies)
+// @bound none on the fields: id, both roots (present or not, any valid page number, checksum, length) arbitrary. The stored slot checksum is computed by each version's own xxh3 copy; that the two copies agree is NOT decided here (the equivalence query does not close, DESIGN.md P20), so the `corrupted` flag is compared only in c19_slot_checksum_vectors
+#[kani::proof]
+#[kani::unwind(12)]
+fn c19_slot_fields_cross_read() {
+    let id: u64 = kani::any();
+    let user = any_root();
+    let sys = any_root();
+    let c = cur::vx_header::slot_to_bytes(id, user, sys);
+    let v = v3::vx_header::slot_to_bytes(id, user, sys);
+    let mut i = 0usize;
+    while i < 7 {
+        let mut x = [0u8; 16];
+        let mut y = [0u8; 16];
+        x.copy_from_slice(&c[i * 16..i * 16 + 16]);
+        y.copy_from_slice(&v[i * 16..i * 16 + 16]);
+        assert!(u128::from_le_bytes(x) == u128::from_le_bytes(y), "checksummed part of the slot is byte-identical in both versions");
+        i += 1;
+    }
+    match v3::vx_header::slot_from_bytes(&c) {
+        Some((vid, vu, vs, _corrupted)) => {
+            assert!(vid == id && vu == user && vs == sys, "3.0.0 reads this version's slot to the same fields");
+        }
+        None => assert!(false, "3.0.0 parses this version's slot"),
+    }
+    match cur::vx_header::slot_from_bytes(&v) {
+        Some((cid, cu, cs, _corrupted)) => {
+            assert!(cid == id && cu == user && cs == sys, "this version reads 3.0.0's slot to the same fields");
+        }
+        None => assert!(false),
+    }
+    kani::cover!(user.is_some() && sys.is_none(), "data root only");
+}
+
+// @harness props=C19 tier=quick timeout=1800 mem=16
+// @desc checksum agreement on fixed vectors: for three concrete commit slots the slot written by this version verifies under redb 3.0.0's reader (its own xxh3 copy) and conversely - a cross-check of the two xxh3 copies on constants, NOT a proof of their equivalence
+// @functions cur and v3: TransactionHeader::{to_bytes,from_bytes}, hash128_with_seed
+// @bound three concrete slots (constant inputs: CBMC evaluates both hash functions)
+#[kani::proof]
+#[kani::unwind(40)]
+fn c19_slot_checksum_vectors() {
+    let cases: [(u64, Option<(u64, u128, u64)>, Option<(u64, u128, u64)>); 3] = [
+        (1, None, None),
+        (0x1234_5678_9ABC_DEF0, Some((5 | (3 << 20), 0xDEAD_BEEF_0123_4567_89AB_CDEF_0011_2233, 42)), None),
+        (u64::MAX - 1, Some((0xFFFFF, 1, u64::MAX)), Some((7 | (1 << 59), u128::MAX, 0))),
+    ];
+    let mut k = 0usize;
+    while k < 3 {
+        let (id, u, s) = cases[k];
+        let c = cur::vx_header::slot_to_bytes(id, u, s);
+        let v = v3::vx_header::slot_to_bytes(id, u, s);
+        let mut same = true;
+        let mut i = 0usize;
+        while i < 8 {
+            let mut x = [0u8; 16];
+            let mut y = [0u8; 16];
+            x.copy_from_slice(&c[i * 16..i * 16 + 16]);
+            y.copy_from_slice(&v[i * 16..i * 16 + 16]);
+            if u128::from_le_bytes(x) != u128::from_le_bytes(y) {
+                same = false;
+            }
+            i += 1;
+        }
+        assert!(same, "both versions write byte-identical slots, checksum included");
+        match v3::vx_header::slot_from_bytes(&c) {
+            Some((_, _, _, corrupted)) => assert!(!corrupted, "3.0.0 verifies this version's slot checksum"),
+            None => assert!(false),
+        }
+        k += 1;
+    }
+    kani::cover!(true, "vectors compared");
+}
+
+// ---- leaf and branch pages: each version reads what the other builds ----------------------------------
+
+fn leaf_cross<const K0: usize, const V0: usize, const K1: usize, const V1: usize>(fk: Option<usize>, fv: Option<usize>) {
+    let k0: [u8; K0] = kani::any();
+    let v0: [u8; V0] = kani::any();
+    let k1: [u8; K1] = kani::any();
+    let v1: [u8; V1] = kani::any();
+    let mut pc = [0u8; 64];
+    let mut pv = [0u8; 64];
+    cur::vx_btree::build_leaf2(&mut pc, fk, fv, &k0, &v0, &k1, &v1);
+    v3::vx_btree::build_leaf2(&mut pv, fk, fv, &k0, &v0, &k1, &v1);
+    let mut i = 0usize;
+    while i < 64 {
+        assert!(pc[i] == pv[i], "both versions build byte-identical leaf pages");
+        i += 1;
+    }
+    assert!(v3::vx_btree::leaf_num_pairs(&pc, fk, fv) == 2);
+    let mut n = 0usize;
+    while n < 3 {
+        assert!(v3::vx_btree::leaf_entry(&pc, fk, fv, n) == cur::vx_btree::leaf_entry(&pc, fk, fv, n), "3.0.0 locates every entry where this version does");
+        n += 1;
+    }
+    let e1 = v3::vx_btree::leaf_entry(&pc, fk, fv, 1).unwrap();
+    assert!(e1.1 - e1.0 == K1 && e1.3 - e1.2 == V1);
+}
+
+// @harness props=C19 tier=quick timeout=1800 mem=16
+// @desc leaf pages: redb 3.0.0's RawLeafBuilder and this version's produce byte-identical pages for the same pairs, and 3.0.0's LeafAccessor locates every entry of a page built by this version exactly where this version's accessor does
+// @functions cur and v3: RawLeafBuilder::{new,append}, LeafAccessor::{new,num_pairs,entry_ranges}
+// @bound two pairs on a 64-byte page; shapes (variable 2/3 + variable 1/0), (fixed 2 + variable 3/1), (variable 1/3 + fixed 2); contents arbitrary
+#[kani::proof]
+#[kani::unwind(66)]
+fn c19_leaf_cross_read() {
+    leaf_cross::<2, 1, 3, 0>(None, None);
+    leaf_cross::<2, 3, 2, 1>(Some(2), None);
+    leaf_cross::<1, 2, 3, 2>(None, Some(2));
+    kani::cover!(true, "three shapes");
+}
